@@ -1,7 +1,7 @@
-(* C08 — updates are idempotent, history is append-only (security level: all five classes).
+(* C08 — updates are idempotent (whole trees, any depth), history is append-only (security level: all five classes).
    Statements only; proofs in Proofs/IdemProofs.v.  Real-number instance. *)
 From Coq Require Import Reals List.
-Require Import BT.Num BT.Base BT.Records BT.Engine BT.Proofs.SecInv BT.Proofs.IdemProofs.
+Require Import BT.Num BT.Base BT.Records BT.Engine BT.Proofs.SecInv BT.Proofs.TreeInv BT.Proofs.IdemProofs BT.Proofs.IdemTree.
 Local Open Scope R_scope.
 
 (* re-running the update of a security for the same date (any class: plain, fixed income,
@@ -22,3 +22,20 @@ Theorem C08_security_rows_append_only : forall date inow (s s' : secR) j,
   nth j (h_notls s') 0 = nth j (h_notls s) 0.
 Proof. exact sec_update_base_rows. Qed.
 Print Assumptions C08_security_rows_append_only.
+
+(* StrategyBase.update for a date already current: a second update of any well-formed tree (any depth, shared
+   tickers, fixed income or not, any behaviour of the paper copies) returns the very same tree — values, notionals,
+   prices, weights, every history row, the universe columns and the paper copies; the paper copies are not stepped again *)
+Theorem C08_tree_update_idempotent :
+  forall (A : Type) (paper_step : option nat -> tree RNumI A -> result (tree RNumI A)) i inow (n n1 : node RNumI A),
+    WF n -> node_update paper_step (Some i) inow n = Ok n1 -> node_update paper_step (Some i) inow n1 = Ok n1.
+Proof. exact node_update_idem. Qed.
+Print Assumptions C08_tree_update_idempotent.
+
+(* the update of a node does not read the weight its parent gave it (so re-weighting never invalidates an update) *)
+Theorem C08_update_ignores_own_weight :
+  forall (A : Type) (paper_step : option nat -> tree RNumI A -> result (tree RNumI A)) date inow w (g : strat RNumI A) kids lz paper,
+    node_update paper_step date inow (NStrat (set_g_weight w g) kids lz paper) =
+    bind (node_update paper_step date inow (NStrat g kids lz paper)) (fun n' => Ok (set_weight w n')).
+Proof. exact node_update_weight. Qed.
+Print Assumptions C08_update_ignores_own_weight.
